@@ -107,6 +107,53 @@ theorem c19_prefix_agrees_without_mixing (c : Cfg α)
     simp only [run]
     rw [(hstep s e).1, (hstep s e).2, ih]
 
+/-- What the code does with the stray `return` events that follow an uncaught
+    exception or `sys.exit()` (python/uftrace.py has no `finally`, so the returns
+    of the runpy frames that were entered before tracing started are still
+    delivered): the counters are not corrupted (the clamp), and unless the mode
+    is opt-in or `--no-libcall`, one unpaired `cygprof_exit` is made per event —
+    libmcount drops it with "unpaired cygprof exit".  Stated so that the
+    behaviour is on record; such streams are outside `eventsL`. -/
+theorem c19_stray_return_unpaired_exit (c : Cfg α) (n : α) (hl : c.isLib n = true)
+    (hm : firstMatch c.flist n = none) :
+    stepSt c St.init ⟨.ret, n⟩ = St.init ∧
+    stepOut c St.init ⟨.ret, n⟩ = (if c.gmode = .fin ∨ c.lmode = .none then [] else [.exit]) := by
+  cases hg : c.gmode <;> cases hlm : c.lmode <;>
+    simp [stepSt, stepOut, reaches, skipDecision, cinAfter, coutAfter, libAfter, canTrace,
+      St.init, EvKind.isEntry, hm, hg, hlm, hl]
+
+/-! ### pseudo addresses (`convert_function_addr`): what ties an `enter` to a name -/
+
+/-- an address, once handed out, never changes while more events arrive -/
+theorem c19_addr_stable [BEq α] [LawfulBEq α] (syms : List α) (evs : List (Ev α)) (n : α)
+    (h : n ∈ syms) : addrOf (symsOf syms evs) n = addrOf syms n := by
+  obtain ⟨t, ht⟩ := symsOf_prefix evs syms
+  simp [addrOf, ht, List.idxOf_append, h]
+
+/-- two names never share an address -/
+theorem c19_addr_injective [BEq α] [LawfulBEq α] (syms : List α) (a b : α)
+    (ha : a ∈ syms) (hb : b ∈ syms) (h : addrOf syms a = addrOf syms b) : a = b := by
+  simp only [addrOf, Nat.add_right_cancel_iff] at h
+  have h1 := List.getElem_idxOf (List.idxOf_lt_length_of_mem ha)
+  have h2 := List.getElem_idxOf (List.idxOf_lt_length_of_mem hb)
+  simp only [h] at h1
+  exact h1.symm.trans h2
+
+/-- every function seen in any event (also a filtered one) has an address -/
+theorem c19_addr_assigned [BEq α] [LawfulBEq α] : ∀ (evs : List (Ev α)) (syms : List α) (e : Ev α),
+    e ∈ evs → e.name ∈ symsOf syms evs
+  | [], _, _, h => by simp at h
+  | x :: xs, syms, e, h => by
+    simp only [symsOf]
+    rcases List.mem_cons.mp h with rfl | h
+    · obtain ⟨t, ht⟩ := symsOf_prefix xs (intern syms e.name)
+      rw [ht]
+      apply List.mem_append_left
+      simp only [intern]
+      split
+      · rename_i hc; simpa using hc
+      · simp
+    · exact c19_addr_assigned xs _ e h
 instance (l : List (Out α)) : Decidable (Balanced l) := by
   unfold Balanced; infer_instance
 
@@ -153,6 +200,15 @@ example : ∀ n, firstMatch ({ cfgMixed false with
   intro n
   simp only [Cfg.flist, firstMatch]
   split <;> simp
+
+/-- non-vacuity of `c19_stray_return_unpaired_exit`: a library function that no
+    filter names, default mode -/
+example : (({ cfgMixed true with isLib := fun n => n == 7 } : Cfg Nat).isLib 7 = true) ∧
+    firstMatch ({ cfgMixed true with isLib := fun n => n == 7 } : Cfg Nat).flist 7 = none := by decide
+
+/-- non-vacuity of the address theorems: the table after `[call 5, call 3, return 3]` -/
+example : symsOf [] [(⟨.call, 5⟩ : Ev Nat), ⟨.call, 3⟩, ⟨.ret, 3⟩] = [5, 3] ∧
+    addrOf [5, 3] 3 = 2 ∧ 3 ∈ [5, 3] := by decide
 
 /-- the specification is not trivial: single-depth library calls with a
     callback (`a` → lib `1` → main `2` → lib `3`), default libcall mode -/
